@@ -73,7 +73,12 @@ def gen_case(rng):
             ep = lambda: rng.randint(0, 127) if rng.random() < 0.7 else rng.choice([-100, -20, 140, 200, 254, 300])
             for _ in range(rng.randrange(1, 3)): tri += [ep(), ep(), rng.choice([96, 192, 384, 100])]
             src.append("v.onTime(%s)" % ",".join(map(str, tri))); sx.append("(vontime (%s))" % " ".join(map(str, tri))); nres += 1; interp = True
-    return " ".join(src), "(" + " ".join(sx) + ")", nres, nnotes, interp
+    text = " ".join(src)
+    if rng.random() < 0.25:
+        # blanks (or a range comment) around the commas of a reservation list: the same list
+        import re
+        text = re.sub(r"\.(onNote|onTime|onCycle|T|N|C)\(([^)]*)\)", lambda m_: ".%s(%s)" % (m_.group(1), re.sub(",", lambda _: rng.choice([" ,", " , ", ", ", ",", " /*k*/ ,"]), m_.group(2))), text)
+    return text, "(" + " ".join(sx) + ")", nres, nnotes, interp
 
 def close(a, b, tol):
     if a == b: return True
